@@ -122,6 +122,8 @@ async def main():
         obs["body_outcome"] = "runtime_error:" + str(e)[:60]
     except BaseException as e:  # noqa
         obs["body_outcome"] = "raised:" + type(e).__name__ + ":" + str(e)[:100]
+    # synchronously, before the loop gets another turn: the property speaks of the moment the context is left
+    obs["states_at_exit"] = {str(p): proc_state(p) for p in obs["pids"]}
     marks["exit_end"] = time.monotonic()
     if "exit_start" in marks:
         obs["exit_duration"] = marks["exit_end"] - marks["exit_start"]
